@@ -9,17 +9,6 @@ sys.path.insert(0, os.path.dirname(HERE))
 import resource  # noqa: E402
 sys.setrecursionlimit(1000)  # the host default; C07 relies on it being the default
 sys.set_int_max_str_digits(0)
-# Address-space cap for this process and every forked worker: an attacker-sized allocation in the code under test
-# (e.g. a list pre-sized from a stack-supplied count) fails fast with MemoryError - which the checks judge - instead of
-# filling the machine until the exploration times out without a verdict. Far above what any check needs itself.
-try:
-    _cap = int(float(os.environ.get('VERIF_MEM_GB', '8')) * (1 << 30))
-    _soft, _hard = resource.getrlimit(resource.RLIMIT_AS)
-    if _hard == resource.RLIM_INFINITY or _cap <= _hard:
-        resource.setrlimit(resource.RLIMIT_AS, (_cap, _hard))
-except (ValueError, OSError):
-    pass
-
 
 def main():
     ap = argparse.ArgumentParser()
